@@ -1,7 +1,7 @@
 """C19 Random sky positions stay in their region; samplers invert the distribution."""
 import numpy as np
 
-from vlib import probe
+from vlib import gen as G, probe
 from vlib.probe import COL
 from vlib.refs import sphere as sp
 
@@ -289,9 +289,9 @@ def run_case(case):
                 gen, e = probe.attempt(er.Generator, f, xrange=[x[0], x[-1]], nx=nx, **kw)
                 x = np.linspace(x[0], x[-1], nx)
             else:
-                gen, e = probe.attempt(er.Generator, f, x=x, **kw)
+                gen, e = probe.attempt(er.Generator, f, x=G.maybe_view(rng, x), **kw)
         else:
-            gen, e = probe.attempt(er.Generator, p, x=x, **kw)
+            gen, e = probe.attempt(er.Generator, G.maybe_view(rng, p), x=G.maybe_view(rng, x), **kw)
         if e is not None:
             COL.violation("C19.generator", "Generator construction raised %r" % e, wit)
             return
@@ -348,13 +348,20 @@ def run_case(case):
         rec = Recorder(_mk_rng("new", seed))
         route = int(rng.integers(0, 3))
         wit = {"d": d, "n": n, "route": route, "cov": cov}
+        cov_in, mean_in = cov, mean
+        if rng.random() < .3:
+            # the same matrix / means as a Fortran-ordered array or as a block of a larger one
+            big = np.full((d + 2, d + 3), 7.5)
+            big[1:d + 1, 2:d + 2] = cov
+            cov_in = [np.asfortranarray(cov), big[1:d + 1, 2:d + 2]][int(rng.integers(0, 2))]
+            mean_in = G.as_view(rng, mean)[0]
         if route == 0:
-            s, e = probe.attempt(er.cholesky_sample, cov, n, means=mean, dist=rec)
+            s, e = probe.attempt(er.cholesky_sample, cov_in, n, means=mean_in, dist=rec)
         elif route == 1:
-            s, e = probe.attempt(er.cholesky_sample, cov, n, dist=rec)
+            s, e = probe.attempt(er.cholesky_sample, cov_in, n, dist=rec)
             mean = np.zeros(d)
         else:
-            cs, e = probe.attempt(er.CholeskySampler, mean, cov, dist=rec)
+            cs, e = probe.attempt(er.CholeskySampler, mean_in, cov_in, dist=rec)
             if e is None:
                 if rng.random() < .3:
                     s, e = probe.attempt(cs.sample)
